@@ -59,6 +59,7 @@ type Frame struct {
 	outReach map[*ssa.BasicBlock]string
 	outState map[*ssa.BasicBlock]*State
 	curBlock *ssa.BasicBlock
+	curIdx   int
 	curReach string
 	curState *State
 	label    string // prefix for names
@@ -553,11 +554,57 @@ func (f *Frame) coerce(v *SVal, t types.Type) *SVal {
 // ------------------------------------------------------------------ block execution
 
 func (f *Frame) execBlock(b *ssa.BasicBlock) {
-	for _, ins := range b.Instrs {
+	for i, ins := range b.Instrs {
 		if f.curReach == "false" {
 			return
 		}
+		f.curIdx = i
+		if f.isTop && f.contract != nil && len(f.contract.Callsites) > 0 {
+			if ci, ok := ins.(ssa.CallInstruction); ok {
+				f.checkCallsites(ci)
+			}
+		}
 		f.exec(ins)
+	}
+	f.curIdx = -1
+}
+
+func calleeName(c *ssa.CallCommon) string {
+	if b, ok := c.Value.(*ssa.Builtin); ok {
+		return b.Name()
+	}
+	if c.IsInvoke() {
+		return invokeKey(c)
+	}
+	if fn := c.StaticCallee(); fn != nil {
+		return fn.String()
+	}
+	return "dynamic"
+}
+
+func (f *Frame) checkCallsites(ci ssa.CallInstruction) {
+	g := f.g
+	name := calleeName(ci.Common())
+	for _, cs := range f.contract.Callsites {
+		if !(name == cs.Callee || strings.HasSuffix(name, "."+cs.Callee) || strings.HasSuffix(name, ")."+cs.Callee)) {
+			continue
+		}
+		env := f.specEnv(f.curState, f.entry).asGoal()
+		env.at = f.curBlock
+		env.atIdx = f.curIdx
+		// arguments of the call are available as arg0, arg1, ...
+		for i, a := range ci.Common().Args {
+			func() {
+				defer func() { recover() }()
+				env.vars[fmt.Sprintf("arg%d", i)] = f.val(a)
+			}()
+		}
+		g.beginGoal()
+		t := env.evalBool(cs.C.E)
+		o := g.oblige("callsite", f.curReach, t, f.pos(ci.Pos()), "before call of "+cs.Callee+" in "+f.fn.Name())
+		g.endGoal()
+		o.Clause = cs.C.Text
+		g.assume(f.curReach, t)
 	}
 }
 
@@ -873,7 +920,11 @@ func (f *Frame) unop(x *ssa.UnOp) *SVal {
 		}
 		r := g.load(st, v, et)
 		if hasRefs(et) {
-			g.assume(f.curReach, g.refFacts(f.curState, r))
+			if ver := g.versionOf(st, v, et); ver != "" {
+				g.assume(f.curReach, g.refFactsVer(f.curState, ver, r))
+			} else {
+				g.assume(f.curReach, g.refFacts(f.curState, r))
+			}
 		}
 		g.assume(f.curReach, g.typeInv(r))
 		return r
